@@ -1,6 +1,7 @@
 package vsim
 
 import (
+	"github.com/uber/tchannel-go/simrt"
 	"fmt"
 	"time"
 
@@ -24,11 +25,13 @@ func famPoison(w *World) {
 	w.NoFault = false
 	w.drawSchedule(true)
 	w.linkDefaults()
-	scenario := scn(3)
+	scenario := scn(4)
 	w.describe("poison scenario=%d", scenario)
 	switch scenario {
 	case 0:
 		w.poisonInbound()
+	case 3:
+		w.poisonRelayCallee()
 	default:
 		w.poisonOutbound(scenario == 2)
 	}
@@ -245,4 +248,102 @@ func (w *World) poisonOutbound(closing bool) {
 		rp.CloseAll()
 	}
 	w.quiesce(maxTimeout+10*time.Second, true)
+}
+
+// poisonRelayCallee: real clients call through a real relay to a raw callee
+// that keeps sending UNSOLICITED terminal frames (error frames, final call
+// responses) for the message ids the relay is about to use on that connection -
+// ids are sequential, hence predictable - so that they race with the relay's
+// own set-up of the calls they name. A legitimate server is reachable through
+// the same relay throughout.
+func (w *World) poisonRelayCallee() {
+	srv := w.addNode(NodeOpts{Name: "s0", Service: "svc0", Host: "10.0.2.1", Port: 5000, Conn: w.connOptsBig()})
+	srv.Ch.Register(&echoHandler{w: w, n: srv}, "echo")
+	spy := &SpyRelayHost{w: w, name: "r0"}
+	rn := w.addNode(NodeOpts{Name: "r0", Service: "relay", Host: "10.0.1.1", Port: 4500, Conn: w.connOptsBig(), Relay: spy, RelayMaxTombs: uint64(scn(3))})
+	spy.Add(srv.Service, srv.HostPort)
+	rs := w.newRawPeer("rawsrv", "10.0.8.1")
+	flood := 4 + scn(40)
+	gapUs := []int{0, 0, 20, 100, 500}[scn(5)]
+	answer := scnChance(1, 2)
+	hp := rs.Listen(6000, func(c *RawConn) {
+		if c.ServerHandshake("10.0.8.1:6000") != nil {
+			return
+		}
+		w.Net.Fired["peer.unsolicited-terminal"]++
+		simrt.Go("h/unsolicited", func() {
+			for i := 0; i < flood; i++ {
+				id := uint32(1 + scn(8))
+				var b []byte
+				if scnChance(1, 2) {
+					b = wire.EncError(id, []byte{1, 3, 5, 7}[scn(4)], wire.Span{}, "unsolicited")
+				} else {
+					b = wire.EncCall(wire.CallSpec{Type: wire.TCallRes, ID: id, CsumType: wire.CsumNone, Args: [3][]byte{nil, []byte("r;x\n"), []byte("y")}})[0]
+				}
+				if c.Send(b) != nil {
+					return
+				}
+				if gapUs > 0 {
+					sleep(time.Duration(gapUs) * time.Microsecond)
+				}
+			}
+		})
+		reqTag := map[uint32]string{}
+		for {
+			f, err := c.ReadFrame(20 * time.Second)
+			if err != nil {
+				return
+			}
+			if f.Type == wire.TCallReq {
+				reqTag[f.ID] = tagOfFrame(f)
+			}
+			if !answer || (f.Type != wire.TCallReq && f.Type != wire.TCallReqCont) || f.More() {
+				continue
+			}
+			if rec := w.callTag[reqTag[f.ID]]; rec != nil {
+				for _, fr := range wire.EncCall(wire.CallSpec{Type: wire.TCallRes, ID: f.ID, CsumType: wire.CsumCRC32, Args: [3][]byte{nil, rec.wantRes2, rec.wantRes3}}) {
+					if c.Send(fr) != nil {
+						return
+					}
+				}
+			}
+		}
+	})
+	spy.Add("x", hp)
+	var fs []func()
+	nc := 1 + scn(3)
+	for ci := 0; ci < nc; ci++ {
+		cli := w.addNode(NodeOpts{Name: fmt.Sprintf("c%d", ci), Service: fmt.Sprintf("client%d", ci), Host: fmt.Sprintf("10.0.3.%d", ci+1), Conn: w.connOptsBig()})
+		ncalls := 1 + scn(4)
+		var recs []*CallRec
+		for k := 0; k < ncalls; k++ {
+			s := CallSpec{From: cli, To: rn.HostPort, Service: "x", Via: "relay x1", Timeout: time.Duration(20+scn(300)) * w.Grid, Pad2: scn(300), Len3: scn(3000), Rs2: scn(500), Rs3: scn(3000), NoCheck: true}
+			if scnChance(1, 3) {
+				s.Service, s.NoCheck, s.Rs2, s.Rs3 = srv.Service, false, -1, -1 // the legitimate server, through the same relay
+				s.Timeout = 5 * time.Second                                    // (no deadline pressure on these: they must simply work)
+			}
+			recs = append(recs, w.newCall(s))
+		}
+		gap := time.Duration(scn(3)) * w.Grid
+		fs = append(fs, func() {
+			for _, r := range recs {
+				w.Call(r)
+				if r.Err != nil && r.Spec.Service == srv.Service && r.StallIn == 0 {
+					w.violate("C03", "legit-call-fails-after-hostile-input", "a call to the legitimate server through the relay failed while a hostile callee on another connection sent unsolicited frames: %s", errStr(r.Err))
+				}
+				if gap > 0 {
+					sleep(gap)
+				}
+			}
+		})
+	}
+	w.tasks(fs...)
+	w.QuiesceStarted = true
+	w.settle(35 * time.Second) // every ttl and the relay's tombstone period
+	spy.checkEnded()
+	w.checkQuiescent()
+	for _, rp := range w.RawPeers {
+		rp.CloseAll()
+	}
+	w.quiesce(5*time.Second, true)
 }
